@@ -1,5 +1,5 @@
 (** C09 — the nested round trip against the ISO-shaped reference reader of Lex.v:
-      forall v, iso_wf v = true -> iso_parse (ser raw_name v) = Some (norm v)
+      forall v, iso_wf v = true -> iso_parse (ser esc_iso v) = Some (norm v)
     Same two layers as Full.v (bytes -> tokens, tokens -> value). *)
 From OxVerif Require Import Base.Util C09.Model C09.Tokens C09.FracSweep C09.Proofs C09.Reals C09.Full C09.Lex.
 Require Import Lia ZifyBool.
@@ -285,9 +285,45 @@ Proof.
   unfold itok. cbn [N.eqb Pos.eqb]. rewrite (iname_raw n rest H (good_rest_istop _ G)). reflexivity.
 Qed.
 
+(** the repaired writer's escaper: every name of bytes < 256 *)
+Definition iesc_byte_ok (c : N) : bool :=
+  if iso_plain c then iregular c && negb (c =? 35)
+  else iregular 35 &&
+       match ihex2 (hexdig (c / 16)) (hexdig (c mod 16)) with Some v => v =? c | None => false end.
+Lemma iesc_byte_sweep : forall c, c < 256 -> iesc_byte_ok c = true.
+Proof. apply allb_spec. vm_compute. reflexivity. Qed.
+Lemma iname_esc_iso : forall n rest, bytes_ok n = true -> istop rest -> iname (esc_iso n ++ rest) = Some (n, rest).
+Proof.
+  induction n as [|c n IH]; intros rest H D.
+  - cbn [esc_iso app]. destruct rest as [|d r]; [reflexivity|]. cbn in D. cbn [iname]. rewrite D. reflexivity.
+  - cbn [bytes_ok forallb] in H. apply andb_true_iff in H. destruct H as [Hb Hs].
+    unfold byte_ok in Hb. apply N.ltb_lt in Hb.
+    pose proof (iesc_byte_sweep c Hb) as K. unfold iesc_byte_ok in K.
+    cbn [esc_iso]. destruct (iso_plain c).
+    + apply andb_true_iff in K. destruct K as [K1 K2]. apply negb_true_iff in K2.
+      cbn [app iname]. rewrite K1, K2. cbn [negb]. rewrite (IH rest Hs D). reflexivity.
+    + apply andb_true_iff in K. destruct K as [_ K].
+      destruct (ihex2 (hexdig (c / 16)) (hexdig (c mod 16))) as [v|] eqn:E; [|discriminate].
+      apply N.eqb_eq in K. subst v.
+      cbn [app iname]. change (iregular 35) with true. change (35 =? 35) with true. cbn [negb]. cbv iota.
+      rewrite E, (IH rest Hs D). reflexivity.
+Qed.
+Lemma ilex1_esc_iso_name : forall n rest, bytes_ok n = true -> good_rest rest ->
+  ilex1 (47 :: esc_iso n ++ rest) = (TName n, rest).
+Proof.
+  intros n rest H G. unfold ilex1. rewrite iskip_start by reflexivity.
+  unfold itok. cbn [N.eqb Pos.eqb]. rewrite (iname_esc_iso n rest H (good_rest_istop _ G)). reflexivity.
+Qed.
+
 (** ** the tree *)
+Section IGen.
+Variable nm : bytes -> bytes.
+Variable nok : bytes -> bool.
+Hypothesis Hnm : forall n rest, nok n = true -> good_rest rest -> ilex1 (47 :: nm n ++ rest) = (TName n, rest).
+Local Notation iwfg := (iso_wf_gen nok).
+
 Definition ILexP (v : obj) : Prop :=
-  iso_wf v = true -> forall rest, good_rest rest -> ILexes (ser raw_name v ++ rest) (itoks v) rest.
+  iwfg v = true -> forall rest, good_rest rest -> ILexes (ser nm v ++ rest) (itoks v) rest.
 
 Lemma ilexes_ref : forall n g, ILexP (ORef n g).
 Proof.
@@ -306,8 +342,8 @@ Qed.
 Lemma ilexes_arr_end : forall rest, ILexes (93 :: rest) [TArrE] rest.
 Proof. intro. eapply ILexes_tok; [reflexivity | reflexivity | cbn [length]; lia | apply ILexes_nil]. Qed.
 
-Lemma ilexes_elems : forall l, Forall ILexP l -> forallb iso_wf l = true -> forall rest,
-  ILexes (ser_elems (ser raw_name) l ++ 93 :: rest) (flat_map itoks l ++ [TArrE]) rest.
+Lemma ilexes_elems : forall l, Forall ILexP l -> forallb iwfg l = true -> forall rest,
+  ILexes (ser_elems (ser nm) l ++ 93 :: rest) (flat_map itoks l ++ [TArrE]) rest.
 Proof.
   induction 1 as [|a r Pa Pr IH]; intros W rest.
   - apply ilexes_arr_end.
@@ -323,16 +359,16 @@ Qed.
 
 Lemma ilexes_arr : forall l, Forall ILexP l -> ILexP (OArr l).
 Proof.
-  intros l H W rest G. cbn [iso_wf] in W.
+  intros l H W rest G. cbn [iso_wf_gen] in W.
   cbn [ser itoks]. rewrite <- app_comm_cons, <- app_assoc. cbn [app].
-  eapply ILexes_tok with (r := ser_elems (ser raw_name) l ++ 93 :: rest);
+  eapply ILexes_tok with (r := ser_elems (ser nm) l ++ 93 :: rest);
     [reflexivity | reflexivity | cbn [length]; lia|].
   apply ilexes_elems; assumption.
 Qed.
 
 Lemma ilexes_entries : forall L, Forall (fun kv => ILexP (snd kv)) L ->
-  forallb (fun kv => iso_name (fst kv) && iso_wf (snd kv)) L = true -> forall rest,
-  ILexes (ser_entries raw_name (map (on_snd (ser raw_name)) L) ++ 10 :: 62 :: 62 :: rest)
+  forallb (fun kv => nok (fst kv) && iwfg (snd kv)) L = true -> forall rest,
+  ILexes (ser_entries nm (map (on_snd (ser nm)) L) ++ 10 :: 62 :: 62 :: rest)
          (flat_map ientry_toks L ++ [TDictE]) rest.
 Proof.
   induction 1 as [|kv L Pkv PL IH]; intros W rest.
@@ -341,11 +377,11 @@ Proof.
   - cbn [forallb] in W. apply andb_true_iff in W. destruct W as [Wkv WL].
     apply andb_true_iff in Wkv. destruct Wkv as [Wk Wv].
     cbn [map flat_map]. rewrite ser_entries_cons. unfold ser_entry, on_snd at 1 2. cbn [fst snd].
-    unfold raw_name at 1. unfold ientry_toks at 1.
+    unfold ientry_toks at 1.
     rewrite <- !app_assoc. cbn [app]. rewrite <- !app_assoc. cbn [app].
     apply ILexes_ws; [reflexivity|].
     eapply ILexes_tok.
-    { apply ilex1_name; [exact Wk | apply good_rest_sp]. }
+    { apply Hnm; [exact Wk | apply good_rest_sp]. }
     { reflexivity. }
     { apply cons_app_longer. }
     apply ILexes_ws; [reflexivity|].
@@ -355,9 +391,9 @@ Qed.
 
 Lemma ilexes_dict : forall l, Forall (fun kv => ILexP (snd kv)) l -> ILexP (ODict l).
 Proof.
-  intros l H W rest G. cbn [iso_wf] in W.
+  intros l H W rest G. cbn [iso_wf_gen] in W.
   rewrite ser_dict, itoks_dict. rewrite <- !app_comm_cons. rewrite <- app_assoc. cbn [app].
-  eapply ILexes_tok with (r := ser_entries raw_name (map (on_snd (ser raw_name)) (sort_kv l)) ++ 10 :: 62 :: 62 :: rest);
+  eapply ILexes_tok with (r := ser_entries nm (map (on_snd (ser nm)) (sort_kv l)) ++ 10 :: 62 :: 62 :: rest);
     [reflexivity | reflexivity | cbn [length]; lia|].
   apply ilexes_entries; [apply sort_kv_Forall; exact H | apply forallb_sort_kv; exact W].
 Qed.
@@ -365,34 +401,34 @@ Qed.
 Lemma ilexes_ser : forall v, ILexP v.
 Proof.
   induction v using obj_ind'; try (apply ilexes_arr; assumption); try (apply ilexes_dict; assumption);
-    try apply ilexes_ref; intros W rest G; cbn [iso_wf] in W.
-  - apply (ILexes_one (ser raw_name ONull)); [|reflexivity | discriminate].
+    try apply ilexes_ref; intros W rest G; cbn [iso_wf_gen] in W.
+  - apply (ILexes_one (ser nm ONull)); [|reflexivity | discriminate].
     apply ilex1_kw; [discriminate | reflexivity | reflexivity | exact G].
-  - apply (ILexes_one (ser raw_name (OBool b))); [|reflexivity | destruct b; discriminate].
+  - apply (ILexes_one (ser nm (OBool b))); [|reflexivity | destruct b; discriminate].
     destruct b; (apply ilex1_kw; [discriminate | reflexivity | reflexivity | exact G]).
-  - apply (ILexes_one (ser raw_name (OInt z))); [apply ilex1_int; exact G | reflexivity | apply dec_z_nonempty].
-  - apply (ILexes_one (ser raw_name (OReal n m))); [apply ilex1_real; exact G | | apply ser_real_nonempty].
+  - apply (ILexes_one (ser nm (OInt z))); [apply ilex1_int; exact G | reflexivity | apply dec_z_nonempty].
+  - apply (ILexes_one (ser nm (OReal n m))); [apply ilex1_real; exact G | | apply ser_real_nonempty].
     unfold real_tok. destruct (m mod 1000000 =? 0); reflexivity.
-  - apply (ILexes_one (ser raw_name (OStr s))); [|reflexivity | discriminate].
+  - apply (ILexes_one (ser nm (OStr s))); [|reflexivity | discriminate].
     cbn [ser]. rewrite <- app_comm_cons, <- app_assoc. apply ilex1_str. exact W.
-  - apply (ILexes_one (ser raw_name (OHex s))); [|reflexivity | discriminate].
+  - apply (ILexes_one (ser nm (OHex s))); [|reflexivity | discriminate].
     cbn [ser]. rewrite <- app_comm_cons, <- app_assoc. apply ilex1_hex. exact W.
-  - apply (ILexes_one (ser raw_name (OName n))); [|reflexivity | discriminate].
-    cbn [ser]. rewrite <- app_comm_cons. apply ilex1_name; assumption.
+  - apply (ILexes_one (ser nm (OName n))); [|reflexivity | discriminate].
+    cbn [ser]. rewrite <- app_comm_cons. apply Hnm; assumption.
 Qed.
 
-Lemma ilex_all_ser : forall v rest f, iso_wf v = true -> good_rest rest -> (length (itoks v) <= f)%nat ->
-  ilex_all f (ser raw_name v ++ rest) = itoks v ++ ilex_all (f - length (itoks v)) rest.
+Lemma ilex_all_ser_gen : forall v rest f, iwfg v = true -> good_rest rest -> (length (itoks v) <= f)%nat ->
+  ilex_all f (ser nm v ++ rest) = itoks v ++ ilex_all (f - length (itoks v)) rest.
 Proof. intros v rest f W G Hf. apply ILexes_lex_all; [apply ilexes_ser; assumption | exact Hf]. Qed.
 
-Lemma ilex_all_ser_top : forall v, iso_wf v = true ->
-  ilex_all (S (length (ser raw_name v))) (ser raw_name v) = itoks v ++ [TEof].
+Lemma ilex_all_ser_top : forall v, iwfg v = true ->
+  ilex_all (S (length (ser nm v))) (ser nm v) = itoks v ++ [TEof].
 Proof.
   intros v W. pose proof (ILexes_len _ _ _ (ilexes_ser v W [] I)) as L.
   rewrite app_nil_r in L. cbn [length] in L.
-  pose proof (ilex_all_ser v [] (S (length (ser raw_name v))) W I) as K. rewrite app_nil_r in K.
+  pose proof (ilex_all_ser_gen v [] (S (length (ser nm v))) W I) as K. rewrite app_nil_r in K.
   rewrite K by lia. f_equal.
-  destruct (S (length (ser raw_name v)) - length (itoks v))%nat eqn:E; [lia | reflexivity].
+  destruct (S (length (ser nm v)) - length (itoks v))%nat eqn:E; [lia | reflexivity].
 Qed.
 
 (** * Layer 2 *)
@@ -438,10 +474,10 @@ Lemma inokw_entries : forall L rest, inokw (flat_map ientry_toks L ++ TDictE :: 
 Proof. intros [|kv L] rest; reflexivity. Qed.
 
 Definition IParseP (v : obj) : Prop :=
-  iso_wf v = true -> forall rest fuel, inokw rest = true -> (2 * length (itoks v) <= fuel)%nat ->
+  iwfg v = true -> forall rest fuel, inokw rest = true -> (2 * length (itoks v) <= fuel)%nat ->
   iparse_toks fuel (itoks v ++ rest) = Some (norm v, rest).
 
-Lemma iparse_elems : forall l, Forall IParseP l -> forallb iso_wf l = true ->
+Lemma iparse_elems : forall l, Forall IParseP l -> forallb iwfg l = true ->
   forall rest fuel, (2 * length (flat_map itoks l) + 1 <= fuel)%nat ->
   iparse_arr fuel (flat_map itoks l ++ TArrE :: rest) = Some (map norm l, rest).
 Proof.
@@ -460,7 +496,7 @@ Proof.
 Qed.
 
 Lemma iparse_entries : forall L, Forall (fun kv => IParseP (snd kv)) L ->
-  forallb (fun kv => iso_wf (snd kv)) L = true ->
+  forallb (fun kv => iwfg (snd kv)) L = true ->
   forall rest fuel, (2 * length (flat_map ientry_toks L) + 1 <= fuel)%nat ->
   iparse_dict fuel (flat_map ientry_toks L ++ TDictE :: rest) = Some (map (on_snd norm) L, rest).
 Proof.
@@ -479,7 +515,7 @@ Proof.
     rewrite K, K2. reflexivity.
 Qed.
 
-Lemma iparse_toks_ser : forall v, IParseP v.
+Lemma iparse_toks_ser_gen : forall v, IParseP v.
 Proof.
   induction v using obj_ind'; intros W rest fuel R Hf.
   - destruct fuel; [cbn in Hf; lia | reflexivity].
@@ -492,12 +528,12 @@ Proof.
   - destruct fuel; [cbn in Hf; lia | reflexivity].
   - destruct fuel; [cbn in Hf; lia | reflexivity].
   - destruct fuel; [cbn in Hf; lia | reflexivity].
-  - cbn [iso_wf] in W.
+  - cbn [iso_wf_gen] in W.
     cbn [itoks length] in Hf. rewrite app_length in Hf. cbn [length] in Hf.
     destruct fuel as [|f]; [lia|].
     cbn [itoks norm]. rewrite <- app_comm_cons, <- app_assoc. cbn [app iparse_toks iparse_tok].
     rewrite (iparse_elems l H W rest f) by lia. reflexivity.
-  - cbn [iso_wf] in W. rewrite itoks_dict in *. rewrite norm_dict.
+  - cbn [iso_wf_gen] in W. rewrite itoks_dict in *. rewrite norm_dict.
     cbn [length] in Hf. rewrite app_length in Hf. cbn [length] in Hf.
     destruct fuel as [|f]; [lia|].
     rewrite <- app_comm_cons, <- app_assoc. cbn [app iparse_toks iparse_tok].
@@ -513,53 +549,51 @@ Proof.
 Qed.
 
 (** * The nested theorem against the ISO-shaped reader *)
-Theorem ser_iso_roundtrip : forall v, iso_wf v = true -> iso_parse (ser raw_name v) = Some (norm v).
+Theorem ser_iso_roundtrip_gen : forall v, iwfg v = true -> iso_parse (ser nm v) = Some (norm v).
 Proof.
   intros v W. unfold iso_parse. rewrite (ilex_all_ser_top v W). cbv zeta.
-  rewrite (iparse_toks_ser v W [TEof] _ eq_refl); [reflexivity|].
+  rewrite (iparse_toks_ser_gen v W [TEof] _ eq_refl); [reflexivity|].
   rewrite app_length. lia.
 Qed.
 
-(** * [wf] values the ISO reader also reads back: no CR in literal strings, and names free of the
-    three bytes that are regular for the library but not for ISO (NUL, braces) *)
-Definition iso_extra_char (c : N) : bool := negb (c =? 0) && negb (c =? 123) && negb (c =? 125).
-Definition iso_extra_name (n : bytes) : bool := forallb iso_extra_char n.
+End IGen.
+
+Definition ilex_all_ser := ilex_all_ser_gen esc_iso bytes_ok ilex1_esc_iso_name.
+Definition iparse_toks_ser := iparse_toks_ser_gen bytes_ok.
+Theorem ser_iso_roundtrip : forall v, iso_wf v = true -> iso_parse (ser esc_iso v) = Some (norm v).
+Proof. exact (ser_iso_roundtrip_gen esc_iso bytes_ok ilex1_esc_iso_name). Qed.
+(** record about the writer before the repair (names raw: ISO-regular names only) *)
+Theorem ser_iso_roundtrip_pinned : forall v, iso_wf_pinned v = true -> iso_parse (ser raw_name v) = Some (norm v).
+Proof. exact (ser_iso_roundtrip_gen raw_name iso_name ilex1_name). Qed.
+
+(** * [wf] values the ISO reader also reads back: no CR in literal strings.  (Before the repair
+    the names also had to avoid NUL and braces, regular for the library but not for ISO; the
+    repaired writer escapes them, so names no longer matter.) *)
 Fixpoint iso_extra (v : obj) : bool :=
   match v with
   | OStr s => no_cr s
-  | OName n => iso_extra_name n
   | OArr l => forallb iso_extra l
-  | ODict l => forallb (fun kv => iso_extra_name (fst kv) && iso_extra (snd kv)) l
+  | ODict l => forallb (fun kv => iso_extra (snd kv)) l
   | _ => true
   end.
 
-Lemma iso_name_of_regular : forall n, regular_name n = true -> iso_extra_name n = true -> iso_name n = true.
-Proof.
-  unfold regular_name, iso_extra_name, iso_name.
-  induction n as [|c n IH]; intros H K; [reflexivity|].
-  cbn [forallb] in *.
-  apply andb_true_iff in H. destruct H as [Hc Hn]. apply andb_true_iff in K. destruct K as [Kc Kn].
-  apply andb_true_iff. split; [|apply IH; assumption].
-  unfold regular_char, is_nd, is_ws, iso_extra_char in *. unfold iso_char, iregular, iws, idelim. lia.
-Qed.
-
 Lemma wf_iso_wf : forall v, wf v = true -> iso_extra v = true -> iso_wf v = true.
 Proof.
-  induction v using obj_ind'; intros W X; cbn [wf iso_extra iso_wf] in *; try reflexivity; try assumption.
-  - apply iso_name_of_regular; assumption.
+  unfold wf, iso_wf.
+  induction v using obj_ind'; intros W X; cbn [wf_gen iso_extra iso_wf_gen] in *; try reflexivity; try assumption.
   - apply andb_true_iff in W. destruct W as [W _].
     induction H as [|a r Pa Pr IH]; [reflexivity|].
     cbn [forallb] in *. apply andb_true_iff in W. apply andb_true_iff in X.
     destruct W as [Wa Wr], X as [Xa Xr]. rewrite (Pa Wa Xa), (IH Wr Xr). reflexivity.
   - induction H as [|kv r Pa Pr IH]; [reflexivity|].
     cbn [forallb] in *. apply andb_true_iff in W. apply andb_true_iff in X.
-    destruct W as [Wa Wr], X as [Xa Xr].
-    apply andb_true_iff in Wa. apply andb_true_iff in Xa. destruct Wa as [Wk Wv], Xa as [Xk Xv].
-    rewrite (iso_name_of_regular _ Wk Xk), (Pa Wv Xv), (IH Wr Xr). reflexivity.
+    destruct W as [Wa Wr], X as [Xv Xr].
+    apply andb_true_iff in Wa. destruct Wa as [Wk Wv].
+    rewrite Wk, (Pa Wv Xv), (IH Wr Xr). reflexivity.
 Qed.
 
 Theorem ser_both_readers : forall v, wf v = true -> iso_extra v = true ->
-  parse (ser raw_name v) = Some (norm v) /\ iso_parse (ser raw_name v) = Some (norm v).
+  parse (ser esc_iso v) = Some (norm v) /\ iso_parse (ser esc_iso v) = Some (norm v).
 Proof.
   intros v W X. split; [apply ser_parse_roundtrip; exact W | apply ser_iso_roundtrip, wf_iso_wf; assumption].
 Qed.
@@ -571,24 +605,29 @@ Definition isample : obj :=
         ODict [(b "Zed", OArr [OInt 1; OInt 0; ORef 7 0]); (b "A", OName (b "R")); (b "", ONull)];
         OBool true; OArr []; ODict []; ORef 9999999 65535].
 Example isample_ok : wf isample = true /\ iso_extra isample = true /\ iso_wf isample = true
-  /\ iso_parse (ser raw_name isample) = Some (norm isample).
+  /\ iso_parse (ser esc_iso isample) = Some (norm isample)
+  /\ wf sample_names = true /\ iso_extra sample_names = false
+  /\ iso_parse (ser esc_iso (OArr [OName (b "My Image"); OName [65; 0; 66]; OName (b "A{B}#"); ODict [(b "k 1", OName (b "(x)"))]]))
+     = Some (norm (OArr [OName (b "My Image"); OName [65; 0; 66]; OName (b "A{B}#"); ODict [(b "k 1", OName (b "(x)"))]])).
 Proof. vm_compute. repeat split. Qed.
 
 (** values outside [wf] (known findings of the library's reader) that the ISO reader reads back *)
 Definition isample2 : obj :=
   OArr [OInt 1; OInt 0; OName (b "R"); ORef 99999999 70000; OReal false 9223372036854775808000000].
 Example isample2_ok : wf isample2 = false /\ iso_wf isample2 = true
-  /\ iso_parse (ser raw_name isample2) = Some (norm isample2).
+  /\ iso_parse (ser esc_iso isample2) = Some (norm isample2).
 Proof. vm_compute. repeat split. Qed.
 
 (** CR in a literal string: the library keeps it, an ISO reader yields LF *)
 Lemma iso_cr_refuted : exists v, wf v = true /\ iso_wf v = false
-  /\ parse (ser raw_name v) = Some (norm v)
-  /\ iso_parse (ser raw_name v) = Some (PStr [97; 10; 98]) /\ norm v = PStr [97; 13; 98].
+  /\ parse (ser esc_iso v) = Some (norm v)
+  /\ iso_parse (ser esc_iso v) = Some (PStr [97; 10; 98]) /\ norm v = PStr [97; 13; 98].
 Proof. exists (OStr [97; 13; 98]). vm_compute. repeat split. Qed.
 
-(** NUL or a brace in a raw name: regular for the library, a token boundary for ISO *)
-Lemma iso_name_refuted : exists v1 v2, wf v1 = true /\ wf v2 = true
+(** record about the writer before the repair — NUL or a brace in a RAW name: regular for the
+    library, a token boundary for ISO; the repaired writer escapes both and the readers agree *)
+Lemma iso_name_refuted_pinned : exists v1 v2, wf_pinned v1 = true /\ wf_pinned v2 = true
   /\ parse (ser raw_name v1) = Some (norm v1) /\ parse (ser raw_name v2) = Some (norm v2)
-  /\ iso_parse (ser raw_name v1) = Some (PName [65]) /\ iso_parse (ser raw_name v2) = Some (PName [65]).
+  /\ iso_parse (ser raw_name v1) = Some (PName [65]) /\ iso_parse (ser raw_name v2) = Some (PName [65])
+  /\ iso_parse (ser esc_iso v1) = Some (norm v1) /\ iso_parse (ser esc_iso v2) = Some (norm v2).
 Proof. exists (OName [65; 0; 66]), (OName [65; 123; 66]). vm_compute. repeat split. Qed.
